@@ -230,10 +230,22 @@ def anchored_docs(key):
                  (("b",), "secret", "shared secret"),
                  (("c", 0, 0), "secret", "shared secret"),
                  (("c", 1, 0), "secret", "shared secret")], []))
+    # anchored secrets which nothing aliases (one-line and folded, as a hash
+    # value and as a list element): the anchor is part of the file
+    f1 = slot_text("folded", "shared secret", key, 0)
+    f2 = slot_text("folded", "other", key, 2)
+    out.append(("anchored-unaliased",
+                "solo: &S %s\nfold: &F%s\nlist:\n  - plain\n  - &L%s\n"
+                "last: &P plain\n" % (enc2, f1, f2),
+                [(("solo",), "secret", "other"),
+                 (("fold",), "secret", "shared secret"),
+                 (("list", 0), "plain", "plain"),
+                 (("list", 1), "secret", "other"),
+                 (("last",), "plain", "plain")], []))
     return out
 
 
-N_ANCHORED = 11
+N_ANCHORED = 12
 
 
 def plan(tier):
